@@ -64,7 +64,8 @@ func (g *gettyClientHandler) OnOpen(session getty.Session) error {
 			ApplicationId:           conf.ApplicationID,
 			TransactionServiceGroup: conf.TxServiceGroup,
 		}}
-		err := GetGettyRemotingClient().SendAsyncRequest(request)
+		// on the session that has just been opened: its coordinator is the one that has to hear it
+		err := GetGettyRemotingClient().sendAsyncRequestOn(session, request)
 		if err != nil {
 			log.Errorf("OnOpen error: {%#v}", err.Error())
 			sessionManager.releaseSession(session)
